@@ -5,6 +5,7 @@ import (
 	"go/ast"
 	"go/token"
 	"go/types"
+	"os"
 	"sort"
 	"strconv"
 	"strings"
@@ -140,7 +141,9 @@ func (ex *Exec) appendSlices(st *State, a, b Slice) Slice {
 		for i := 0; i < n; i++ {
 			arr = smt.Sto(arr, smt.Add(a.Len, fmt.Sprint(i)), smt.Sel(b.Arr, fmt.Sprint(i)))
 		}
-		res := Slice{Arr: arr, Len: smt.Add(a.Len, b.Len), Elem: a.Elem, B: ex.newBacking()}
+		named := ex.Ctx.Fresh("app", ArrSort(a.Elem))
+		st.Assume(smt.Eq(named, arr))
+		res := Slice{Arr: named, Len: smt.Add(a.Len, b.Len), Elem: a.Elem, B: ex.newBacking()}
 		if n == 1 {
 			x := ex.boundName("x")
 			es := mustSort(a.Elem)
@@ -258,6 +261,20 @@ func (ex *Exec) applyContract(st *State, fn *ssa.Function, fc *contract.Func, ar
 	}
 	old := st.Clone()
 	old.Fr = st.Fr
+	// recursion: the measure must decrease
+	if st.Fr != nil && st.Fr.Fn == fn && ex.entryOld != nil {
+		if fc.Decreases == nil {
+			ex.AddObl(st, "decreases", "recursion/decreases", pos, smt.False)
+			if ex.mute == 0 {
+				ex.Obls[len(ex.Obls)-1].Note2 = "recursive call without a decreases clause"
+			}
+		} else {
+			callee := ex.EvalInt(pre, *fc.Decreases)
+			entrySc := ex.scopeFor(fn, ex.entryOld, nil, ex.entryArgs, nil)
+			caller := ex.EvalInt(entrySc, *fc.Decreases)
+			ex.AddObl(st, "decreases", "recursion/decreases", pos, smt.And(smt.Ge(caller, "0"), smt.Lt(callee, caller)))
+		}
+	}
 	// result
 	var rets []Val
 	sig := fn.Signature
@@ -300,7 +317,54 @@ func (ex *Exec) applyContract(st *State, fn *ssa.Function, fc *contract.Func, ar
 }
 
 // havocLoc havocs the location denoted by a contract location expression (x.f, x.f.g, *x).
+// typeLoc recognises "Type.Field" locations (the field of every object of that type).
+func (ex *Exec) typeLoc(sc *Scope, loc string) (root types.Type, names string, t types.Type, ok bool) {
+	parts := strings.Split(loc, ".")
+	if len(parts) < 2 || sc.Pkg == nil {
+		return nil, "", nil, false
+	}
+	if _, isVar := sc.Vars[parts[0]]; isVar {
+		return nil, "", nil, false
+	}
+	tn, isType := sc.Pkg.Pkg.Scope().Lookup(parts[0]).(*types.TypeName)
+	if !isType {
+		return nil, "", nil, false
+	}
+	cur := tn.Type()
+	var ns []string
+	for _, f := range parts[1:] {
+		path, ft, found := findField(cur, f)
+		if !found {
+			return nil, "", nil, false
+		}
+		c2 := cur
+		for _, i := range path {
+			sf := structOf(c2).Field(i)
+			ns = append(ns, sf.Name())
+			c2 = sf.Type()
+		}
+		cur = ft
+	}
+	return tn.Type(), strings.Join(ns, "."), cur, true
+}
+
 func (ex *Exec) havocLoc(st *State, sc *Scope, loc string) {
+	if root, names, t, ok := ex.typeLoc(sc, loc); ok {
+		var ls []leaf
+		leaves(t, nil, "", &ls)
+		for _, l := range ls {
+			n := names
+			if l.Names != "" {
+				n += "." + l.Names
+			}
+			for _, suf := range leafSuffixes(l.Type) {
+				k := ex.heapKey(root, n, suf)
+				ex.heapArr(st, k, ex.leafSort(l.Type, suf))
+				st.Heap[k] = ex.Ctx.Fresh("havoc_"+k, "(Array Ref "+ex.heapSort[k]+")")
+			}
+		}
+		return
+	}
 	p, t := ex.resolveLoc(sc, loc)
 	fresh := ex.Fresh(st, t, "havoc_"+loc)
 	ex.Store(st, p, t, fresh)
@@ -643,6 +707,32 @@ func (ex *Exec) loopScope(st *State, b *ssa.BasicBlock, ord int) *Scope {
 			sc.Addr[k] = true
 		}
 	}
+	// names whose only dynamic binding so far is a zero constant (or none): bind them to a
+	// live SSA value that a DebugRef of the function gives that name
+	for _, blk := range fr.Fn.Blocks {
+		for _, other := range blk.Instrs {
+			dr, isDR := other.(*ssa.DebugRef)
+			if !isDR || dr.IsAddr {
+				continue
+			}
+			id, isID := dr.Expr.(*ast.Ident)
+			if !isID {
+				continue
+			}
+			if _, isC := dr.X.(*ssa.Const); isC {
+				continue
+			}
+			v, live := fr.Env[dr.X]
+			if !live {
+				continue
+			}
+			if cur, bound := sc.Vars[id.Name]; !bound || fr.ZeroNamed[id.Name] {
+				_ = cur
+				sc.Vars[id.Name] = v
+				delete(sc.Addr, id.Name)
+			}
+		}
+	}
 	// iter(N): hidden range index + 1
 	fi := ex.info(fr.Fn)
 	for h, o := range fi.headers {
@@ -742,7 +832,11 @@ func (ex *Exec) enterLoop(st *State, b *ssa.BasicBlock, prev *ssa.BasicBlock, or
 	ex.havocLoop(st, b, wObjs, wKeys)
 	sc = ex.loopScope(st, b, ord)
 	for _, inv := range lc.Invariants {
-		st.Assume(ex.EvalBool(sc, inv))
+		t := ex.EvalBool(sc, inv)
+		if os.Getenv("VERIF_DEBUG_INV") != "" {
+			fmt.Fprintf(os.Stderr, "INV %s => %.300s\n", inv.Text, t)
+		}
+		st.Assume(t)
 	}
 	rec := &loopRec{Ordinal: ord}
 	if lc.Decreases != nil {
